@@ -78,6 +78,12 @@ let () =
                             | Model.Ok b -> L [A "Ok"; vout vbool (Model.Ok b)]
                             | Model.Err -> A "Err" | Model.Panic -> A "Panic" | Model.Diverge -> A "Diverge")
      | Model.Err -> A "Err" | Model.Panic -> A "Panic" | Model.Diverge -> A "Diverge") | _ -> arity ());
+  (* non_empty_multi [parts] n | non_empty_multi [parts] none *)
+  reg "non_empty_multi" (fun a -> match a with
+    | [w; A "none"] -> vbool (Model.non_empty_multi_any (List.map as_bytes (as_list w)))
+    | [w; n] -> let k = Big_int_Z.int_of_big_int (as_int n) in
+        if k < 0 then vbool false else vbool (Model.non_empty_multi (List.map as_bytes (as_list w)) (nat_of_int k))
+    | _ -> arity ());
   reg "pai_verify" (fun a -> match a with [n; k; pub; pf] ->
     (match dec_pt Model.secp256k1 pub with
      | Some (Some (sx, sy)) ->
@@ -154,6 +160,7 @@ let () =
     let (al, t) = Model.dln_prove h_sha512_256 (as_int h1) (as_int h2) (as_int x) (as_int p) (as_int q) (as_int n) (as_ints rs) in
     L [A "Ok"; L [vints al; vints t]] | _ -> arity ());
   reg "new_ec_point" (fun a -> match a with [c; x; y] -> vopt vpt (Model.new_ec_point (curve_of c) (as_int x) (as_int y)) | _ -> arity ());
+  reg "msg_point_door" (fun a -> match a with [_; c; x; y] -> vopt vpt (Model.new_ec_point (curve_of c) (as_int x) (as_int y)) | _ -> arity ());
   reg "unflatten" (fun a -> match a with [c; l] -> vout vpts (Model.unflatten (curve_of c) (as_ints l)) | _ -> arity ());
   reg "ec_add" (fun a -> match a with [c; p; q] ->
     let c = curve_of c in
@@ -181,7 +188,8 @@ let () =
     (match Model.new_ec_point Model.secp256k1 (as_int x) (as_int y) with
      | Some p -> L [A "Some"; vpt p]
      | None -> A "None") | _ -> arity ());
-  reg "mta_run" (fun a -> match a with [c; s; k; pa; pb; av; bv; bo; rnd] ->
+  reg "mta_run" (fun a0 -> let (a, tamper) = (match a0 with [c; s; k; pa; pb; av; bv; bo; rnd; t] -> ([c; s; k; pa; pb; av; bv; bo; rnd], as_atom t) | _ -> (a0, "none")) in
+    match a with [c; s; k; pa; pb; av; bv; bo; rnd] ->
     let c = curve_of c in
     let sk = sk_of k in
     let n = sk.Model.skN in
@@ -191,10 +199,19 @@ let () =
        (match as_ints ar, as_ints br with
         | [a1; a2; a3; a4], [b1; b2; b3; b4; b5; b6; b7] ->
           let bpt = opt_pt c bo in
+          let n2 = mult_big_int n n in
+          let alter which v =
+            if tamper = which ^ "-neg" then minus_big_int v
+            else if tamper = which ^ "-mirror" then sub_big_int n2 v
+            else if tamper = which ^ "-plusN2" then add_big_int v n2
+            else if tamper = which ^ "+1" then succ_big_int v
+            else v in
           (match Model.alice_init h_sha512_256 c n (as_int av) (as_int xa) ntb h1b h2b a1 a2 a3 a4 with
-           | Model.Ok (ca, pfa) ->
+           | Model.Ok (ca0, pfa) ->
+             let ca = alter "cA" ca0 in
              (match Model.bob_mid h_sha512_256 c session n pfa (as_int bv) ca nta h1a h2a ntb h1b h2b bpt (as_int bp) (as_int xb) b1 b2 b3 b4 b5 b6 b7 with
-              | Model.Ok ((((bet, cb), _), pfb), u) ->
+              | Model.Ok ((((bet, cb0), _), pfb), u) ->
+                let cb = alter "cB" cb0 in
                 let uo = (match bpt with Some _ -> Some u | None -> None) in
                 (match Model.alice_end h_sha512_256 c session sk pfb uo bpt ca cb nta h1a h2a with
                  | Model.Ok al -> L [A "Done"; I ca; I cb; I al; I bet]
